@@ -214,6 +214,7 @@ inductive ValKind where
   | nb      -- `[]byte` as above, except 1 is the nil slice (`null`) and 2 the empty slice (`""`)
   | long    -- long string: `<digits>-` and filler; marshaled length 127, 128, 129, 16383, 16384, 16385 (v % 6)
   | esc     -- string `<digits>-` followed by a fragment that `encoding/json` escapes (or not)
+  | np      -- `*uint64` that may be nil: 1 is the typed nil pointer (`null`), anything else points to the number
   deriving Repr, DecidableEq, Inhabited
 
 namespace Codec
@@ -265,6 +266,7 @@ def valBytes (vk : ValKind) (v : Nat) : Bytes :=
   | .str => quote (digits v)
   | .esc => quoteEsc (digits v ++ 45 :: escFrag v)
   | .ptr => digits v
+  | .np => if v = 1 then litNull else digits v
   | .iface => str "{\"X\":[" ++ quote (digits v) ++ str "]}"
   | .long =>
       let head := digits v ++ [45]
